@@ -446,6 +446,132 @@ class ModelsOps:
             kind = "exact"
         return Num(rf, kind)
 
+    # =============================================================== text templates (enabled per scenario)
+    def text_parts(self, v):
+        """Template parts of a text value: ("lit", str) / ("val", value[, spec])."""
+        if isinstance(v, StrV):
+            if v.const is not None:
+                return [("lit", v.const)] if v.const else []
+            p = getattr(v, "parts", None)
+            if p is not None:
+                return list(p)
+        return [("val", v)]
+
+    def mk_text(self, parts):
+        out = []
+        for p in parts:
+            if p[0] == "lit" and out and out[-1][0] == "lit":
+                out[-1] = ("lit", out[-1][1] + p[1])
+            elif p[0] == "lit" and not p[1]:
+                continue
+            else:
+                out.append(p)
+        if all(p[0] == "lit" for p in out):
+            return StrV("".join(p[1] for p in out))
+        if len(out) == 1 and out[0][0] == "val" and len(out[0]) == 2 and isinstance(out[0][1], StrV):
+            return out[0][1]
+        s = StrV(None, "text")
+        s.parts = out
+        s.nonempty = True if any(p[0] == "lit" and p[1] for p in out) else None
+        return s
+
+    def text_of(self, v, spec, node, how="format"):
+        """The text `format(v, spec)` (how='format') or `str(v)` (how='str') denotes, as a template."""
+        I = self.I
+        spec_const = spec.const if isinstance(spec, StrV) else ("" if spec is None else None)
+        if isinstance(v, StrV):
+            if how == "str" or spec_const == "":
+                return v
+            o = StrV(None, "formatted")
+            return o
+        if isinstance(v, Num):
+            if how == "str" or spec_const == "":
+                return self.mk_text([("val", v)])         # str(x) == format(x, '') for numbers (trusted)
+            return self.mk_text([("val", v, spec_const if spec_const is not None else "?")])
+        cname = None
+        if isinstance(v, QtyV):
+            cname = "Money" if (self.st.T(v.tid).money and self.prog.has_cls("Money")) else "Quantity"
+        elif isinstance(v, UnitV):
+            cname = "Unit"
+            if self.prog.has_cls("Currency") and self.st.T(self.type_of_unit(v)).money:
+                cname = "Currency"
+        elif isinstance(v, ObjV) and v.ci is not None:
+            cname = v.ci.name
+        if cname is not None and self.prog.has_cls(cname):
+            ci = self.prog.cls(cname)
+            if how == "format":
+                fi = self.prog.lookup(ci, "__format__")
+                if fi is not None:
+                    return I.call_function(fi, [v, spec if isinstance(spec, StrV) else StrV("")], {}, node)
+            fi = self.prog.lookup(ci, "__str__")
+            if fi is not None and (how == "str" or spec_const == ""):
+                return I.call_function(fi, [v], {}, node)
+        return StrV(None, f"text({v!r})")
+
+    def format_template(self, fmt: StrV, args, kwargs, node):
+        """str.format with a constant format string, as a template."""
+        import string
+        parts = []
+        auto = 0
+        try:
+            fields = list(string.Formatter().parse(fmt.const))
+        except ValueError:
+            self.I.raise_("ValueError", node)
+        for lit, name, spec, conv in fields:
+            if lit:
+                parts.append(("lit", lit))
+            if name is None:
+                continue
+            if name == "":
+                key = auto
+                auto += 1
+            elif name.isdigit():
+                key = int(name)
+            elif name.isidentifier():
+                key = name
+            else:
+                return StrV(None, "formatted")          # attribute / index lookups in the field: not modelled
+            if isinstance(key, int):
+                if key >= len(args):
+                    self.I.raise_("IndexError", node)
+                v = args[key]
+            else:
+                if key not in kwargs:
+                    self.I.raise_("KeyError", node)
+                v = kwargs[key]
+            if spec and "{" in spec:
+                return StrV(None, "formatted")
+            if conv == "r":
+                parts.append(("val", StrV(None, "repr")))
+                continue
+            t = self.text_of(v, StrV(spec or ""), node, how="str" if conv == "s" and not spec else "format")
+            parts.extend(self.text_parts(t))
+        return self.mk_text(parts)
+
+    def percent_template(self, fmt: StrV, r, node):
+        import re as _re
+        args = list(r.items) if isinstance(r, TupleV) else [r]
+        parts, pos, i = [], 0, 0
+        for m in _re.finditer(r"%(%|[sdr])", fmt.const):
+            parts.append(("lit", fmt.const[pos:m.start()]))
+            pos = m.end()
+            if m.group(1) == "%":
+                parts.append(("lit", "%"))
+                continue
+            if i >= len(args):
+                self.I.raise_("TypeError", node)
+            v = args[i]
+            i += 1
+            if m.group(1) == "r":
+                parts.append(("val", StrV(None, "repr")))
+            else:
+                parts.extend(self.text_parts(self.text_of(v, None, node, how="str")))
+        rest = fmt.const[pos:]
+        if "%" in rest or i != len(args):
+            return StrV(None, "formatted")
+        parts.append(("lit", rest))
+        return self.mk_text(parts)
+
     def binop(self, op, l, r, node):
         I = self.I
         if isinstance(l, CmpV):         # arithmetic on a comparison result: its truth value as 0 / 1
@@ -459,10 +585,14 @@ class ModelsOps:
         if isinstance(l, Num) and isinstance(r, Num):
             return self.num_binop(op, l, r, node)
         if isinstance(l, StrV) and op is ast.Mod:
-            if isinstance(r, TupleV):
-                pass
+            if getattr(self, "text_templates", False) and l.const is not None:
+                return self.percent_template(l, r, node)
             return StrV(None, "formatted")
         if isinstance(l, StrV) and isinstance(r, StrV) and op is ast.Add:
+            if l.const is not None and r.const is not None:
+                return StrV(l.const + r.const)
+            if getattr(self, "text_templates", False):
+                return self.mk_text(self.text_parts(l) + self.text_parts(r))
             return StrV(None, "concat")
         if isinstance(l, TupleV) and isinstance(r, TupleV) and op is ast.Add:
             return TupleV(l.items + r.items)
@@ -602,7 +732,11 @@ class ModelsOps:
                 return ListV(None, tag="list", opaque_elem=getattr(args[0], "opaque_elem", None))
             return ListV(list(seq))
         if name == "str":
+            if args and getattr(self, "text_templates", False):
+                return self.text_of(args[0], None, node, how="str")
             return StrV(None, f"str({args[0]!r})" if args else "str")
+        if name == "format" and args and getattr(self, "text_templates", False):
+            return self.text_of(args[0], args[1] if len(args) > 1 else StrV(""), node)
         if name == "int":
             v = args[0]
             if isinstance(v, Num):
@@ -819,6 +953,8 @@ class ModelsOps:
                 return I.call_function(fi, [v], {}, node)
             return HashV(v)
         if name in ("format",):
+            if args and getattr(self, "text_templates", False):
+                return self.text_of(args[0], args[1] if len(args) > 1 else StrV(""), node)
             return StrV(None, "formatted")
         if name == "repr":
             return StrV(None, "repr")
@@ -1065,6 +1201,7 @@ class ModelsOps:
                                                                    "ClassWithDefinitionMeta"):
             # type.__new__(mcs, name, bases, clsdict): a new quantity class
             tid = self.st.new_type(money=True if c.name == "MoneyMeta" else None)
+            self.st.T(tid).under_creation = True        # class attributes not yet assigned are the base class's
             cv = ClsV(tid)
             self.st.effects.append(("newclass", cv, self.where(node)))
             return cv
